@@ -34,7 +34,7 @@ def gen_trace(tid, kw, calls, seeds_by_gen, explicit_args=None):
     gens = {}
     outs = [[] for _ in range(ng)]
     names = [[] for _ in range(ng)]
-    seeds = [0] * ng
+    seeds = [-1] * ng
     events = [{"a": "GenInit", "post": {"outs": [list(o) for o in outs], "names": [list(n) for n in names]}}]
     k = 0
     for c in calls:
